@@ -8,7 +8,6 @@ import (
 	"fmt"
 	"go/token"
 	"go/types"
-	"sort"
 	"strings"
 
 	"golang.org/x/tools/go/ssa"
@@ -205,29 +204,46 @@ func c04R2(c *Ctx) {
 	} else {
 		lo := los[0]
 		ok := len(mapCalls) == 1
+		loadedV := ResultOf(lo, 1)
+		var loadedT, loadedF []Edge
+		if loadedV != nil {
+			loadedT, loadedF = BoolTests(TC, Aliases(loadedV))
+		}
 		for _, a := range RetAtoms(TC, 1) {
-			not, isNot := a.Val.(*ssa.UnOp)
-			if !isNot || not.Op != token.NOT {
-				ok = false
-				continue
+			// committed == !loaded: the negation itself, or a constant on the matching side of a test of `loaded`
+			if not, isNot := a.Val.(*ssa.UnOp); isNot && not.Op == token.NOT {
+				if ex, isEx := not.X.(*ssa.Extract); isEx && ex.Tuple == lo.Value() && ex.Index == 1 {
+					continue
+				}
 			}
-			ex, isEx := not.X.(*ssa.Extract)
-			if !isEx || ex.Tuple != lo.Value() || ex.Index != 1 {
-				ok = false
+			if k, isK := a.Val.(*ssa.Const); isK && k.Value != nil && loadedV != nil {
+				if boolConst(k) && len(loadedF) > 0 && AtomMustPass(a, newCut().Edges(loadedF...)) {
+					continue
+				}
+				if !boolConst(k) && len(loadedT) > 0 && AtomMustPass(a, newCut().Edges(loadedT...)) {
+					continue
+				}
 			}
+			ok = false
 		}
 		c.Check(R, tn+"|atomic-claim", lo.Pos(), ok,
 			ifelse(ok, "committed = !loaded of the only sync.Map operation, one atomic LoadOrStore", "committed is not the negated `loaded` of a single LoadOrStore: two goroutines can both believe they own the node (double transfer)"))
 		ok = true
+		offered := strip(lo.Common().Args[len(lo.Common().Args)-1])
 		for _, a := range RetAtoms(TC, 0) {
-			if !c01Slice(a.Val, func(x ssa.Value) bool {
+			if c01Slice(a.Val, func(x ssa.Value) bool {
 				ex, isEx := x.(*ssa.Extract)
 				return isEx && ex.Tuple == lo.Value() && ex.Index == 0
 			}) {
-				ok = false
+				continue
 			}
+			// the channel offered to LoadOrStore is the stored one exactly when nothing was loaded
+			if strip(a.Val) == offered && len(loadedF) > 0 && AtomMustPass(a, newCut().Edges(loadedF...)) {
+				continue
+			}
+			ok = false
 		}
-		c.Check(R, tn+"|channel-is-the-stored-one", lo.Pos(), ok, "the returned channel is the value LoadOrStore reports (the winner's channel)")
+		c.Check(R, tn+"|channel-is-the-stored-one", lo.Pos(), ok, ifelse(ok, "the returned channel is the value LoadOrStore reports (the winner's channel)", "the returned channel may differ from the one stored in the tracker: waiters and the owner would use different channels"))
 	}
 	// claim sites
 	n := 0
@@ -349,24 +365,55 @@ func c04R3(c *Ctx) {
 	if n == 0 {
 		c.LostAnchor(R, "semaphore.NewWeighted in package ~")
 	}
+	graphFns := c01GraphCopyFns(c.P)
 	for _, T := range traversalClosures(c.P) {
 		key := c01ClosureKey(T, "traverse") + "|dispatch-uses-shared-limiter"
 		ok := len(CallsTo(T, nNewSem)) == 0
-		for _, g := range CallsTo(T, nGo) {
-			arg := g.Common().Args[1]
-			viaFree := false
-			for _, r := range Roots(arg) {
-				if ld, isLoad := r.(*ssa.UnOp); isLoad && ld.Op == token.MUL {
-					if _, isFV := ld.X.(*ssa.FreeVar); isFV {
-						viaFree = true
-					}
+		why := "the traversal creates its own semaphore"
+		// the limiters the graph copy dispatches the traversal with
+		var initial []ssa.Value
+		for g := range graphFns {
+			for _, gc := range CallsTo(g, nGo) {
+				if fn, _ := c01FuncOfValue(gc.Common().Args[2]); fn == T {
+					initial = append(initial, gc.Common().Args[1])
 				}
 			}
-			if !viaFree {
-				ok = false
+		}
+		for _, g := range CallsTo(T, nGo) {
+			arg := g.Common().Args[1]
+			srcs, carried := c01CarriedSources(c.P, arg)
+			if !carried {
+				ok, why = false, "the traversal dispatches successors with a limiter that is not state carried from the enclosing copy call"
+				continue
+			}
+			// every value the carrier can hold is (one of) the value(s) the initial dispatch used
+			for _, sv := range srcs {
+				match := false
+				for _, iv := range initial {
+					if c01SameStrip(sv, iv) {
+						match = true
+						continue
+					}
+					in := map[ssa.Value]bool{}
+					for _, r := range Roots(iv) {
+						in[r] = true
+					}
+					all := true
+					for _, r := range Roots(sv) {
+						if !in[r] {
+							all = false
+						}
+					}
+					if all {
+						match = true
+					}
+				}
+				if !match {
+					ok, why = false, "the limiter the traversal dispatches successors with is not the one the copy call started the traversal with"
+				}
 			}
 		}
-		c.Check(R, key, T.Pos(), ok, ifelse(ok, "successors are dispatched with the limiter captured from the enclosing copy call", "the traversal dispatches successors with a limiter other than the one of the enclosing copy call"))
+		c.Check(R, key, T.Pos(), ok && len(initial) > 0, ifelse(ok, "successors are dispatched with the limiter the enclosing copy call started the traversal with", why))
 	}
 }
 
@@ -474,9 +521,17 @@ func c04R4(c *Ctx) {
 	c.Expect(R, 19)
 	pre := c01FieldOf(c.P, "", "CopyGraphOptions", "PreCopy")
 	post := c01FieldOf(c.P, "", "CopyGraphOptions", "PostCopy")
-	if pre == nil || post == nil {
-		c.LostAnchor(R, "~.CopyGraphOptions.{PreCopy,PostCopy}")
+	skippedF := c01FieldOf(c.P, "", "CopyGraphOptions", "OnCopySkipped")
+	mountedF := c01FieldOf(c.P, "", "CopyGraphOptions", "OnMounted")
+	mountFromF := c01FieldOf(c.P, "", "CopyGraphOptions", "MountFrom")
+	if pre == nil || post == nil || skippedF == nil || mountedF == nil || mountFromF == nil {
+		c.LostAnchor(R, "~.CopyGraphOptions.{PreCopy,PostCopy,OnCopySkipped,OnMounted,MountFrom}")
 		return
+	}
+	// callback sites: direct calls through the field or calls of a nil-safe hook helper receiving it
+	sitesOf := func(f *ssa.Function, fv *types.Var) []ssa.CallInstruction {
+		ss, _ := c01CallbackSites(f, fv)
+		return ss
 	}
 	// roles
 	var doCopy, copyNode, mountFn *ssa.Function
@@ -508,9 +563,13 @@ func c04R4(c *Ctx) {
 		}
 	}
 	for _, f := range c.P.FuncsOfPkg("") {
-		if len(isCallTo(doCopy)(f)) > 0 && len(CallsTo(f, nPre)) > 0 {
+		if len(isCallTo(doCopy)(f)) > 0 && len(sitesOf(f, pre)) > 0 {
 			copyNode = f
 		}
+	}
+	inlined := false
+	if copyNode == nil && len(sitesOf(doCopy, pre)) > 0 {
+		copyNode, inlined = doCopy, true // the transfer is inlined into the node copy
 	}
 	if copyNode == nil || mountFn == nil {
 		c.LostAnchor(R, "node copy (calls PreCopy and the transfer function) / mount-or-copy (invokes Mounter.Mount) in package ~")
@@ -521,7 +580,10 @@ func c04R4(c *Ctx) {
 	{
 		F := copyNode
 		fn := FnName(F)
-		pres, posts, xfers := CallsTo(F, nPre), CallsTo(F, nPost), isCallTo(doCopy)(F)
+		pres, posts, xfers := sitesOf(F, pre), sitesOf(F, post), isCallTo(doCopy)(F)
+		if inlined {
+			xfers = CallsTo(F, nPush)
+		}
 		preNil, postNil := c04NilEdgesOfField(F, pre), c04NilEdgesOfField(F, post)
 		ok := true
 		for _, x := range xfers {
@@ -626,7 +688,7 @@ func c04R4(c *Ctx) {
 	// --- traversal: one terminal action per node ---
 	for _, T := range traversalClosures(c.P) {
 		var acts []ssa.Instruction
-		acts = append(acts, c04Instrs(CallsTo(T, nSkipped))...)
+		acts = append(acts, c04Instrs(sitesOf(T, skippedF))...)
 		acts = append(acts, c04Instrs(isCallTo(copyNode)(T))...)
 		acts = append(acts, c04Instrs(isCallTo(mountFn)(T))...)
 		a, b := c04AnyReach(acts, acts)
@@ -638,7 +700,7 @@ func c04R4(c *Ctx) {
 		F := mountFn
 		fn := FnName(F)
 		mounts := CallsTo(F, nMount)
-		mounteds, posts, fallbacks := CallsTo(F, nMounted), CallsTo(F, nPost), isCallTo(copyNode)(F)
+		mounteds, posts, fallbacks := sitesOf(F, mountedF), sitesOf(F, post), isCallTo(copyNode)(F)
 		a, _ := c04AnyReach(c04Instrs(mounteds), c04Instrs(posts))
 		if a == nil {
 			a, _ = c04AnyReach(c04Instrs(posts), c04Instrs(mounteds))
@@ -680,25 +742,37 @@ func c04R4(c *Ctx) {
 					continue
 				}
 				G := getter.Fn.(*ssa.Function)
+				// the fallback flag: a captured bool the getter sets to a constant K on entry; "fell back" <=> flag == K
 				var flag *ssa.Alloc
+				fellBack := true
 				for i, fv := range G.FreeVars {
 					if b, isBool := derefType(fv.Type()).Underlying().(*types.Basic); isBool && b.Kind() == types.Bool {
-						setsTrueFirst := false
 						for _, r := range *fv.Referrers() {
 							if s, isStore := r.(*ssa.Store); isStore && s.Addr == fv && s.Block() == G.Blocks[0] {
-								if k, isK := s.Val.(*ssa.Const); isK && boolConst(k) {
-									setsTrueFirst = true
+								if k, isK := s.Val.(*ssa.Const); isK && k.Value != nil {
+									if a, isAlloc := getter.Bindings[i].(*ssa.Alloc); isAlloc {
+										flag, fellBack = a, boolConst(k)
+									}
 								}
 							}
-						}
-						if a, isAlloc := getter.Bindings[i].(*ssa.Alloc); isAlloc && setsTrueFirst {
-							flag = a
 						}
 					}
 				}
 				if flag == nil {
 					ok = false
 					continue
+				}
+				// before Mount the flag holds the opposite value
+				for _, rs := range ReachingStores(flag, m.(ssa.Instruction)) {
+					if rs == nil {
+						if !fellBack {
+							ok = false // zero value false == K
+						}
+						continue
+					}
+					if k, isK := rs.Val.(*ssa.Const); !isK || k.Value == nil || boolConst(k) == fellBack {
+						ok = false
+					}
 				}
 				loads := map[ssa.Value]bool{}
 				for _, r := range *flag.Referrers() {
@@ -707,6 +781,9 @@ func c04R4(c *Ctx) {
 					}
 				}
 				te, fe := BoolTests(F, loads)
+				if !fellBack {
+					te, fe = fe, te
+				}
 				if reach(m.Block(), instrIndex(m.(ssa.Instruction))+1, loop.Header.Instrs[0], newCut().Edges(te...)) {
 					ok = false
 				}
@@ -716,7 +793,7 @@ func c04R4(c *Ctx) {
 					}
 				}
 				// the getter announces PreCopy before it fetches
-				pres := CallsTo(G, nPre)
+				pres := sitesOf(G, pre)
 				preNil := c04NilEdgesOfField(G, pre)
 				okPre := len(pres) > 0
 				for _, f := range CallsTo(G, nFetch) {
@@ -740,14 +817,14 @@ func c04R4(c *Ctx) {
 		x, y := c04AnyReach(c04Instrs(fallbacks), append(append(c04Instrs(mounts), c04Instrs(posts)...), c04Instrs(mounteds)...))
 		c.Check(R, fn+"|fallback-copy-is-terminal", F.Pos(), x == nil && len(fallbacks) > 0,
 			ifelse(x == nil, "a fallback to the plain node copy is never followed by Mount / PostCopy / OnMounted", fmt.Sprintf("%s can be followed by %s", instrLabelOr(x), instrLabelOr(y))))
-		var cbs []ssa.CallInstruction
-		cbs = append(cbs, CallsTo(F, nMountFr)...)
-		cbs = append(cbs, mounteds...)
-		cbs = append(cbs, posts...)
-		sort.SliceStable(cbs, func(i, j int) bool { return CalleeName(cbs[i]) < CalleeName(cbs[j]) })
-		for _, cb := range cbs {
-			okE, d := c04Unchanged(cb, nil)
-			c.Check(R, fn+"|"+strings.TrimPrefix(CalleeName(cb), "field:~.CopyGraphOptions.")+"-error-unchanged", cb.Pos(), okE, d)
+		for _, grp := range []struct {
+			label string
+			sites []ssa.CallInstruction
+		}{{"MountFrom", sitesOf(F, mountFromF)}, {"OnMounted", mounteds}, {"PostCopy", posts}} {
+			for _, cb := range grp.sites {
+				okE, d := c04Unchanged(cb, nil)
+				c.Check(R, fn+"|"+grp.label+"-error-unchanged", cb.Pos(), okE, d)
+			}
 		}
 	}
 }
